@@ -469,7 +469,7 @@ func TestVerifRecord(t *testing.T) {
 	for i := 0; i < runs; i++ {
 		b := vBehaviour{Cfg: cfg, Src: fmt.Sprintf("recorded-node-run-%d", i), Steps: []vStep{{A: vAct{Act: "recorded"}}}}
 		rp := &vReplayer{rep: rep, b: b, subWait: map[int]int{}, hookPending: map[int]bool{}, laterFrames: map[int]int{},
-			parked: map[int]bool{}, evicted: map[string]int{}, checkedAt: map[int]int{}}
+			parked: map[int]bool{}, evicted: map[string]int{}, checkedAt: map[int]int{}, raceHeld: map[string]bool{}}
 		for _, sp := range []string{"X", "Y", "Z"} {
 			for _, p := range vRecPatterns {
 				if vValidPattern(p) {
